@@ -265,6 +265,11 @@ class HistRunner:
                 anoms.append(Anomaly(cls='overbuild', key='overbuild:nested-checksummed-targets-not-settled-in-one-round', cont=True, target=n,
                                      what='%s was rebuilt although every checksummed target below it kept its checksum: with two nested levels of '
                                           'checksummed targets undecided, redo gives up after one out-of-band round and runs it' % n))
+        for n in sorted(ctx.get('removed_overbuild', ())):
+            if n in ex:
+                anoms.append(Anomaly(cls='overbuild', key='overbuild:hand-removed-checksummed-target-definitely-dirty-on-later-looks', cont=True, target=n,
+                                     what='%s was rebuilt although nothing it depends on was: a checksummed target below it had been removed by hand; only the '
+                                          'first look at such a target treats it as "maybe changed", later looks in the same run see it as dirty' % n))
         for n in sorted(ctx.get('absorbed', ())):
             anoms.append(Anomaly(cls='underbuild', key='underbuild:forced-rebuild-after-check-in-same-run-not-seen-by-dependents', cont=True, target=n,
                                  what='%s was force-rebuilt (redo) after it had already been checked in the same run: redo does not mark it changed, '
